@@ -28,23 +28,27 @@ var c10Trace bool
 
 // c10Fault is one injection plan.
 type c10Fault struct {
-	Seq    int    `json:"call_seq"` // sequence number of the VFS/MetaStore call that fails
-	After  bool   `json:"after_effect"`
-	Sticky bool   `json:"sticky"`
-	Seq2   int    `json:"second_call_seq,omitempty"` // optional second failing call (pairs)
-	Kind   string `json:"kind"`
+	Seq    int  `json:"call_seq"` // sequence number of the VFS/MetaStore call that fails
+	After  bool `json:"after_effect"`
+	Sticky bool `json:"sticky"`
+	Seq2   int  `json:"second_call_seq,omitempty"` // optional second failing call (pairs)
+	// Persist: the failing call kind keeps failing (before effect) for this many further API
+	// calls (a disk that stays full / broken for a while), then recovers
+	Persist int    `json:"persist_api_calls,omitempty"`
+	Kind    string `json:"kind"`
 }
 
 // c10Hook injects the fault and records every call of the golden run.
 type c10Hook struct {
-	f          c10Fault
-	calls      []simfs.Call // recorded (golden run only)
-	record     bool
-	fired      int
-	stickyKind simfs.Kind
-	stickyOn   bool
-	firedKind  string
-	paused     bool // set while the harness itself observes the WAL
+	f           c10Fault
+	calls       []simfs.Call // recorded (golden run only)
+	record      bool
+	fired       int
+	stickyKind  simfs.Kind
+	stickyOn    bool
+	persistLeft int
+	firedKind   string
+	paused      bool // set while the harness itself observes the WAL
 }
 
 func (h *c10Hook) Pre(d *simfs.Disk, c simfs.Call) error {
@@ -60,8 +64,9 @@ func (h *c10Hook) Pre(d *simfs.Disk, c simfs.Call) error {
 	if (c.Seq == h.f.Seq || c.Seq == h.f.Seq2) && !h.f.After {
 		h.fired++
 		h.firedKind = c.Kind.String()
-		if h.f.Sticky {
+		if h.f.Sticky || h.f.Persist > 0 {
 			h.stickyOn, h.stickyKind = true, c.Kind
+			h.persistLeft = h.f.Persist
 		}
 		return simfs.ErrInjected
 	}
@@ -83,7 +88,13 @@ func (h *c10Hook) Post(d *simfs.Disk, c simfs.Call) error {
 	}
 	return nil
 }
-func (h *c10Hook) endOfCall() { h.stickyOn = false }
+func (h *c10Hook) endOfCall() {
+	if h.persistLeft > 0 {
+		h.persistLeft--
+		return
+	}
+	h.stickyOn = false
+}
 
 // c10Event is one API call of a run, for candidate replay.
 type c10Event struct {
@@ -218,6 +229,28 @@ func c10Execute(c *evid.Ctx, seed int64, seg int, nops int, f c10Fault) *c10Run 
 		w, err = drv.OpenSim(disk, drv.Cfg{SegSize: seg})
 		return err
 	}
+	// openUntilFaultFree retries Open while a persistent fault may still be active (every
+	// attempt counts as one API call for the fault's lifetime); it returns the error of an
+	// attempt made with no fault armed at all, or nil
+	openUntilFaultFree := func() error {
+		var err error
+		for i := 0; i < 12; i++ {
+			active := h.stickyOn || h.persistLeft > 0
+			before := h.fired
+			err = open()
+			h.endOfCall()
+			if err == nil {
+				return nil
+			}
+			if !active && h.fired == before {
+				return err
+			}
+			if fh, mh := disk.OpenHandles(); fh != 0 || mh != 0 {
+				c.Count("failed_open_left_handles_open", 1)
+			}
+		}
+		return err
+	}
 	if err := open(); err != nil {
 		if h.fired == 0 {
 			c.Violation("C10:open-fresh", err.Error(), replay(""))
@@ -227,7 +260,7 @@ func c10Execute(c *evid.Ctx, seed int64, seg int, nops int, f c10Fault) *c10Run 
 		if fh, mh := disk.OpenHandles(); fh != 0 || mh != 0 {
 			c.Count("signals_for_other_properties", 1)
 		}
-		if err := open(); err != nil {
+		if err := openUntilFaultFree(); err != nil {
 			c.Violation("C10:open-after-failed-open", fmt.Sprintf("Open failed under an injected fault and then again without one: %v", err), replay(""))
 			return run
 		}
@@ -321,7 +354,7 @@ func c10Execute(c *evid.Ctx, seed int64, seg int, nops int, f c10Fault) *c10Run 
 				if fh, mh := disk.OpenHandles(); fh != 0 || mh != 0 {
 					c.Count("failed_open_left_handles_open", 1)
 				}
-				if err2 := open(); err2 != nil {
+				if err2 := openUntilFaultFree(); err2 != nil {
 					c.Violation("C10:open-after-failed-open", fmt.Sprintf("Open failed under an injected fault (%v) and then again without one: %v", err, err2), replay(""))
 					return run
 				}
@@ -400,7 +433,7 @@ func c10Execute(c *evid.Ctx, seed int64, seg int, nops int, f c10Fault) *c10Run 
 						return run
 					}
 					drv.CloseWAL(w)
-					if err := open(); err != nil {
+					if err := openUntilFaultFree(); err != nil {
 						c.Violation("C10:reopen-after-refusal", fmt.Sprintf("reopen after the WAL refused writes failed: %v", err), replay(""))
 						return run
 					}
@@ -424,6 +457,7 @@ func c10Execute(c *evid.Ctx, seed int64, seg int, nops int, f c10Fault) *c10Run 
 	// final clean reopen with no faults
 	drv.CloseWAL(w)
 	h.f = c10Fault{}
+	h.stickyOn, h.persistLeft = false, 0
 	if err := open(); err != nil {
 		c.Violation("C10:final-reopen-failed:"+h.firedKind+c10Eff(f), fmt.Sprintf("clean reopen after a fault in %s (%s) failed: %v", h.firedKind, c10Eff(f), err), replay(""))
 		return run
@@ -465,7 +499,7 @@ func c10Execute(c *evid.Ctx, seed int64, seg int, nops int, f c10Fault) *c10Run 
 		if refusals > 0 {
 			c.Count("runs_with_refused_writes_after_fault", 1)
 		}
-		c.Distinct("fault_classes", fmt.Sprintf("%s|during=%s|%s|sticky=%v", h.firedKind, run.phase, c10Eff(f), f.Sticky))
+		c.Distinct("fault_classes", fmt.Sprintf("%s|during=%s|%s|sticky=%v|persistent=%v", h.firedKind, run.phase, c10Eff(f), f.Sticky, f.Persist > 0))
 	}
 	return run
 }
@@ -500,7 +534,7 @@ func c10Eff(f c10Fault) string {
 }
 
 func runC10(c *evid.Ctx) {
-	c.Rule("for each generated adaptive workload the golden run numbers every VFS/MetaStore call; the workload is then re-executed once per (call, before-effect | after-effect (the write/sync/create/delete/commit happened but an error is returned), once | sticky) with that call failing, continues with further successful operations, and ends with a clean reopen; oracle: in-process acknowledged entries intact and failed appends invisible after every step, after the reopen the state equals the model under some applied/not-applied assignment of the calls that returned errors; thorough adds pairs of failing calls; non-trivial = distinct (call kind, API call it hit, effect, persistence) classes that reached the final reopen",
+	c.Rule("for each generated adaptive workload the golden run numbers every VFS/MetaStore call; the workload is then re-executed once per (call, before-effect | after-effect (the write/sync/create/delete/commit happened but an error is returned), once | sticky within the call | persistent over the next 1-4 API calls) with that call failing, continues with further successful operations, and ends with a clean reopen; oracle: in-process acknowledged entries intact and failed appends invisible after every step, after the reopen the state equals the model under some applied/not-applied assignment of the calls that returned errors; thorough adds pairs of failing calls; non-trivial = distinct (call kind, API call it hit, effect, persistence) classes that reached the final reopen",
 		"faulted_runs", "fault_classes")
 	c.Assume("simmeta commits are atomic; an error from CommitState/SetStable 'after effect' means the commit is durable", "refusal of further writes after a fault is not counted against the property")
 	if c.Replay != "" {
@@ -571,6 +605,9 @@ func runC10(c *evid.Ctx) {
 			if mut {
 				jobs <- job{seed, seg, nops, c10Fault{Seq: call.Seq, After: true, Kind: call.Kind.String()}}
 				jobs <- job{seed, seg, nops, c10Fault{Seq: call.Seq, Sticky: true, Kind: call.Kind.String()}}
+				if i%3 == 0 {
+					jobs <- job{seed, seg, nops, c10Fault{Seq: call.Seq, Persist: 1 + i%4, Kind: call.Kind.String()}}
+				}
 			}
 			if !quick(c) && mut && rng.Intn(6) == 0 {
 				// pairs: a second failing call shortly after the first
